@@ -12,7 +12,7 @@ RULE = ('1..10 records with best chi2 on either side of the threshold (never equ
         'criterion chi= or cpd= (and both / neither / zero thresholds), explicit or automatic output names, input as file or list of results. '
         'non-trivial = both output files non-empty.')
 EXHAUSTIVE = {'quick': False, 'thorough': False}
-ASSUMPTIONS = ['best chi2 never equals the threshold (margin measured exactly)', 'every record holds at least one fit', 'a zero-byte output file is an empty file']
+ASSUMPTIONS = ['best chi2 never equals the threshold (margin measured exactly)', 'a source without any stored fit has no best chi2 and belongs to the bad file', 'a zero-byte output file is an empty file']
 
 FLAGSETS = {1: [1, 0, 9, 2], 2: [1, 4, 0, 3, 9], 3: [4, 9, 1, 0, 1], 5: [1, 1, 4, 4, 1, 2, 3, 0, 9], 7: [1] * 7 + [0, 2]}
 
@@ -37,6 +37,8 @@ def generate(tier, seed):
                 best = thr * scale * rng.choice([rng.dyadic(0.05, 0.95, 8), rng.dyadic(1.05, 4, 8), 0.99, 1.01])
             rest = sorted(best + rng.dyadic(0, 9, 6) for _ in range(rng.randint(0, 3))) if math.isfinite(best) else []
             recs.append(dict(name='s%02d' % i, nd=nd, chi2=[best] + rest))
+        if k % 5 == 3:       # one source without any stored fit (fit() writes such records when the output selector keeps nothing): it has
+            recs[rng.randrange(n)]['chi2'] = []      # no best chi2 to be below a threshold and belongs to the 'bad' file
         cases.append(dict(recs=recs, mode=mode, thr=thr, thr2=rng.dyadic(0.5, 40, 8),
                           names=rng.choice(['auto', 'explicit']), form=rng.choice(['file', 'file', 'list'])))
     return cases
@@ -91,7 +93,7 @@ def _x(v):
 
 def model_requests(case):
     kw = _kw(case)
-    recs = [[i, _x(r['chi2'][0]), r['nd']] for i, r in enumerate(case['recs'])]
+    recs = [[i, _x(r['chi2'][0] if r['chi2'] else math.nan), r['nd']] for i, r in enumerate(case['recs'])]      # no fit: no best value (NaN is below nothing)
     return [('filter_output', [_opt(kw.get('chi')), _opt(kw.get('cpd')), recs])]
 
 
@@ -123,7 +125,7 @@ def judge(case, im, mo):
                 fail.append('faithful: record of %s changed' % x['source']['name'])
     if case['mode'] in ('chi', 'cpd'):
         for i, r in enumerate(recs):
-            best = r['chi2'][0]
+            best = r['chi2'][0] if r['chi2'] else math.nan
             q = best if case['mode'] == 'chi' else best / r['nd']
             want = bool(q < case['thr'])
             if (i in gi) != want and (i in gi or i in bi):
